@@ -439,11 +439,14 @@ func Finish(verifDir string, r *Result, tier string, seed int64, level string, r
 		}
 		return 2
 	}
+	if os.Getenv("VERIF_REPLAYING") != "" {
+		broken = nil // a replay runs one scenario: the observations the whole check requires are not expected of it
+	}
 	if exit == 0 && len(broken) > 0 {
 		fmt.Fprintf(os.Stderr, "BROKEN: property=%s required observations missing: %v\n", r.Property, broken)
 		return 2
 	}
-	if exit == 0 && (r.Evaluations == 0 || len(r.Distinct) < 2) {
+	if exit == 0 && (r.Evaluations == 0 || (len(r.Distinct) < 2 && os.Getenv("VERIF_REPLAYING") == "")) {
 		fmt.Fprintf(os.Stderr, "BROKEN: property=%s observed nothing (evaluations=%d distinct=%d)\n", r.Property, r.Evaluations, len(r.Distinct))
 		return 2
 	}
